@@ -1,9 +1,217 @@
 //! The list of harnesses (one `#[kani::proof]` each + native registry).
 use crate::*;
+use crate::state::Shape;
+use raft::StateRole;
+
+const F21: Shape = Shape::follower3(2, 1);
+const F21T: Shape = Shape::follower3(2, 1).with_terms(&[1, 2, 3]);
+const L21T: c14::LogShape = c14::LogShape { base: 0, n_stable: 2, n_unstable: 1, terms: &[1, 2, 3] };
+const F30: Shape = Shape::follower3(3, 0);
+const F30C1: Shape = Shape::follower3(3, 0).with_commit(1).with_etypes(&[0, 0, 2]).with_terms(&[1, 2, 3]);
+const F30C1N: Shape = Shape::follower3(3, 0).with_commit(1).with_etypes(&[0, 0, 0]);
+const F21C1: Shape = Shape::follower3(2, 1).with_commit(1).with_terms(&[1, 2, 5]);
+
 
 harnesses! {
     { selftest_fail, "SELFTEST", quick, unwind = 4, "planted violation for the witness-extraction self-test", |s| selftest::fail_branchy(s) }
     { selftest_pass, "SELFTEST", quick, unwind = 4, "trivial pass", |s| selftest::pass_trivial(s) }
+    // ---------------- (pre-)vote requests: C03 / C02 / C16 ----------------
+    { vote_follower_real, "C03", quick, unwind = 8,
+      "one Raft::step(MsgRequestVote) on a Follower of a 3-voter group, 3-entry log (symbolic terms and entry types), symbolic term/vote/leader/commit/timers/flags/priority, message term/index/log_term/commit/commit_term/context symbolic, sender a voter or unknown id",
+      |s| c03::vote_step(s, &F21, false, None) }
+    { vote_follower_pre, "C03", quick, unwind = 8,
+      "one Raft::step(MsgRequestPreVote) on a Follower of a 3-voter group, 3-entry log (symbolic terms and entry types), symbolic term/vote/leader/commit/timers/flags/priority, message term/index/log_term/commit/commit_term/context symbolic, sender a voter or unknown id",
+      |s| c03::vote_step(s, &F21, true, None) }
+    { vote_candidate_real_eq_c3m, "C03", quick, unwind = 8,
+      "one Raft::step(MsgRequestVote) on a Candidate (term 5) of a 3-voter group, message term 5, 3-entry log (terms [1,2,3], entry 3 a ConfChangeV2 for (pre)candidates; [1,2,5] for leaders), commit = 1, m.commit = 3 with m.commit_term = local term there (fast-forward); symbolic vote/leader/timers/flags/priority, m.index/log_term/context, sender a voter or unknown id",
+      |s| c03::vote_step_x(s, &F30C1.with_role(StateRole::Candidate).with_term(5), false, Some(3), Some(5), true) }
+    { vote_candidate_real_eq_c3z, "C03", thorough, unwind = 8,
+      "one Raft::step(MsgRequestVote) on a Candidate (term 5) of a 3-voter group, message term 5, 3-entry log (terms [1,2,3], entry 3 a ConfChangeV2 for (pre)candidates; [1,2,5] for leaders), commit = 1, m.commit = 3 with m.commit_term = 0; symbolic vote/leader/timers/flags/priority, m.index/log_term/context, sender a voter or unknown id",
+      |s| c03::vote_step_x(s, &F30C1.with_role(StateRole::Candidate).with_term(5), false, Some(3), Some(5), false) }
+    { vote_candidate_real_eq_c2m, "C03", thorough, unwind = 8,
+      "one Raft::step(MsgRequestVote) on a Candidate (term 5) of a 3-voter group, message term 5, 3-entry log (terms [1,2,3], entry 3 a ConfChangeV2 for (pre)candidates; [1,2,5] for leaders), commit = 1, m.commit = 2 with m.commit_term = local term there (fast-forward); symbolic vote/leader/timers/flags/priority, m.index/log_term/context, sender a voter or unknown id",
+      |s| c03::vote_step_x(s, &F30C1.with_role(StateRole::Candidate).with_term(5), false, Some(2), Some(5), true) }
+    { vote_candidate_real_hi_c3m, "C03", quick, unwind = 8,
+      "one Raft::step(MsgRequestVote) on a Candidate (term 5) of a 3-voter group, message term 7, 3-entry log (terms [1,2,3], entry 3 a ConfChangeV2 for (pre)candidates; [1,2,5] for leaders), commit = 1, m.commit = 3 with m.commit_term = local term there (fast-forward); symbolic vote/leader/timers/flags/priority, m.index/log_term/context, sender a voter or unknown id",
+      |s| c03::vote_step_x(s, &F30C1.with_role(StateRole::Candidate).with_term(5), false, Some(3), Some(7), true) }
+    { vote_candidate_real_hi_c3z, "C03", thorough, unwind = 8,
+      "one Raft::step(MsgRequestVote) on a Candidate (term 5) of a 3-voter group, message term 7, 3-entry log (terms [1,2,3], entry 3 a ConfChangeV2 for (pre)candidates; [1,2,5] for leaders), commit = 1, m.commit = 3 with m.commit_term = 0; symbolic vote/leader/timers/flags/priority, m.index/log_term/context, sender a voter or unknown id",
+      |s| c03::vote_step_x(s, &F30C1.with_role(StateRole::Candidate).with_term(5), false, Some(3), Some(7), false) }
+    { vote_candidate_real_hi_c2m, "C03", thorough, unwind = 8,
+      "one Raft::step(MsgRequestVote) on a Candidate (term 5) of a 3-voter group, message term 7, 3-entry log (terms [1,2,3], entry 3 a ConfChangeV2 for (pre)candidates; [1,2,5] for leaders), commit = 1, m.commit = 2 with m.commit_term = local term there (fast-forward); symbolic vote/leader/timers/flags/priority, m.index/log_term/context, sender a voter or unknown id",
+      |s| c03::vote_step_x(s, &F30C1.with_role(StateRole::Candidate).with_term(5), false, Some(2), Some(7), true) }
+    { vote_candidate_real_lo_c3m, "C03", thorough, unwind = 8,
+      "one Raft::step(MsgRequestVote) on a Candidate (term 5) of a 3-voter group, message term 3, 3-entry log (terms [1,2,3], entry 3 a ConfChangeV2 for (pre)candidates; [1,2,5] for leaders), commit = 1, m.commit = 3 with m.commit_term = local term there (fast-forward); symbolic vote/leader/timers/flags/priority, m.index/log_term/context, sender a voter or unknown id",
+      |s| c03::vote_step_x(s, &F30C1.with_role(StateRole::Candidate).with_term(5), false, Some(3), Some(3), true) }
+    { vote_candidate_pre_eq_c3m, "C03", quick, unwind = 8,
+      "one Raft::step(MsgRequestPreVote) on a Candidate (term 5) of a 3-voter group, message term 5, 3-entry log (terms [1,2,3], entry 3 a ConfChangeV2 for (pre)candidates; [1,2,5] for leaders), commit = 1, m.commit = 3 with m.commit_term = local term there (fast-forward); symbolic vote/leader/timers/flags/priority, m.index/log_term/context, sender a voter or unknown id",
+      |s| c03::vote_step_x(s, &F30C1.with_role(StateRole::Candidate).with_term(5), true, Some(3), Some(5), true) }
+    { vote_candidate_pre_eq_c3z, "C03", thorough, unwind = 8,
+      "one Raft::step(MsgRequestPreVote) on a Candidate (term 5) of a 3-voter group, message term 5, 3-entry log (terms [1,2,3], entry 3 a ConfChangeV2 for (pre)candidates; [1,2,5] for leaders), commit = 1, m.commit = 3 with m.commit_term = 0; symbolic vote/leader/timers/flags/priority, m.index/log_term/context, sender a voter or unknown id",
+      |s| c03::vote_step_x(s, &F30C1.with_role(StateRole::Candidate).with_term(5), true, Some(3), Some(5), false) }
+    { vote_candidate_pre_eq_c2m, "C03", thorough, unwind = 8,
+      "one Raft::step(MsgRequestPreVote) on a Candidate (term 5) of a 3-voter group, message term 5, 3-entry log (terms [1,2,3], entry 3 a ConfChangeV2 for (pre)candidates; [1,2,5] for leaders), commit = 1, m.commit = 2 with m.commit_term = local term there (fast-forward); symbolic vote/leader/timers/flags/priority, m.index/log_term/context, sender a voter or unknown id",
+      |s| c03::vote_step_x(s, &F30C1.with_role(StateRole::Candidate).with_term(5), true, Some(2), Some(5), true) }
+    { vote_candidate_pre_hi_c3m, "C03", quick, unwind = 8,
+      "one Raft::step(MsgRequestPreVote) on a Candidate (term 5) of a 3-voter group, message term 7, 3-entry log (terms [1,2,3], entry 3 a ConfChangeV2 for (pre)candidates; [1,2,5] for leaders), commit = 1, m.commit = 3 with m.commit_term = local term there (fast-forward); symbolic vote/leader/timers/flags/priority, m.index/log_term/context, sender a voter or unknown id",
+      |s| c03::vote_step_x(s, &F30C1.with_role(StateRole::Candidate).with_term(5), true, Some(3), Some(7), true) }
+    { vote_candidate_pre_hi_c3z, "C03", thorough, unwind = 8,
+      "one Raft::step(MsgRequestPreVote) on a Candidate (term 5) of a 3-voter group, message term 7, 3-entry log (terms [1,2,3], entry 3 a ConfChangeV2 for (pre)candidates; [1,2,5] for leaders), commit = 1, m.commit = 3 with m.commit_term = 0; symbolic vote/leader/timers/flags/priority, m.index/log_term/context, sender a voter or unknown id",
+      |s| c03::vote_step_x(s, &F30C1.with_role(StateRole::Candidate).with_term(5), true, Some(3), Some(7), false) }
+    { vote_candidate_pre_hi_c2m, "C03", thorough, unwind = 8,
+      "one Raft::step(MsgRequestPreVote) on a Candidate (term 5) of a 3-voter group, message term 7, 3-entry log (terms [1,2,3], entry 3 a ConfChangeV2 for (pre)candidates; [1,2,5] for leaders), commit = 1, m.commit = 2 with m.commit_term = local term there (fast-forward); symbolic vote/leader/timers/flags/priority, m.index/log_term/context, sender a voter or unknown id",
+      |s| c03::vote_step_x(s, &F30C1.with_role(StateRole::Candidate).with_term(5), true, Some(2), Some(7), true) }
+    { vote_candidate_pre_lo_c3m, "C03", quick, unwind = 8,
+      "one Raft::step(MsgRequestPreVote) on a Candidate (term 5) of a 3-voter group, message term 3, 3-entry log (terms [1,2,3], entry 3 a ConfChangeV2 for (pre)candidates; [1,2,5] for leaders), commit = 1, m.commit = 3 with m.commit_term = local term there (fast-forward); symbolic vote/leader/timers/flags/priority, m.index/log_term/context, sender a voter or unknown id",
+      |s| c03::vote_step_x(s, &F30C1.with_role(StateRole::Candidate).with_term(5), true, Some(3), Some(3), true) }
+    { vote_precandidate_real_eq_c3m, "C03", quick, unwind = 8,
+      "one Raft::step(MsgRequestVote) on a PreCandidate (term 5) of a 3-voter group, message term 5, 3-entry log (terms [1,2,3], entry 3 a ConfChangeV2 for (pre)candidates; [1,2,5] for leaders), commit = 1, m.commit = 3 with m.commit_term = local term there (fast-forward); symbolic vote/leader/timers/flags/priority, m.index/log_term/context, sender a voter or unknown id",
+      |s| c03::vote_step_x(s, &F30C1.with_role(StateRole::PreCandidate).with_term(5), false, Some(3), Some(5), true) }
+    { vote_precandidate_real_eq_c3z, "C03", thorough, unwind = 8,
+      "one Raft::step(MsgRequestVote) on a PreCandidate (term 5) of a 3-voter group, message term 5, 3-entry log (terms [1,2,3], entry 3 a ConfChangeV2 for (pre)candidates; [1,2,5] for leaders), commit = 1, m.commit = 3 with m.commit_term = 0; symbolic vote/leader/timers/flags/priority, m.index/log_term/context, sender a voter or unknown id",
+      |s| c03::vote_step_x(s, &F30C1.with_role(StateRole::PreCandidate).with_term(5), false, Some(3), Some(5), false) }
+    { vote_precandidate_real_eq_c2m, "C03", thorough, unwind = 8,
+      "one Raft::step(MsgRequestVote) on a PreCandidate (term 5) of a 3-voter group, message term 5, 3-entry log (terms [1,2,3], entry 3 a ConfChangeV2 for (pre)candidates; [1,2,5] for leaders), commit = 1, m.commit = 2 with m.commit_term = local term there (fast-forward); symbolic vote/leader/timers/flags/priority, m.index/log_term/context, sender a voter or unknown id",
+      |s| c03::vote_step_x(s, &F30C1.with_role(StateRole::PreCandidate).with_term(5), false, Some(2), Some(5), true) }
+    { vote_precandidate_real_hi_c3m, "C03", quick, unwind = 8,
+      "one Raft::step(MsgRequestVote) on a PreCandidate (term 5) of a 3-voter group, message term 7, 3-entry log (terms [1,2,3], entry 3 a ConfChangeV2 for (pre)candidates; [1,2,5] for leaders), commit = 1, m.commit = 3 with m.commit_term = local term there (fast-forward); symbolic vote/leader/timers/flags/priority, m.index/log_term/context, sender a voter or unknown id",
+      |s| c03::vote_step_x(s, &F30C1.with_role(StateRole::PreCandidate).with_term(5), false, Some(3), Some(7), true) }
+    { vote_precandidate_real_hi_c3z, "C03", thorough, unwind = 8,
+      "one Raft::step(MsgRequestVote) on a PreCandidate (term 5) of a 3-voter group, message term 7, 3-entry log (terms [1,2,3], entry 3 a ConfChangeV2 for (pre)candidates; [1,2,5] for leaders), commit = 1, m.commit = 3 with m.commit_term = 0; symbolic vote/leader/timers/flags/priority, m.index/log_term/context, sender a voter or unknown id",
+      |s| c03::vote_step_x(s, &F30C1.with_role(StateRole::PreCandidate).with_term(5), false, Some(3), Some(7), false) }
+    { vote_precandidate_real_hi_c2m, "C03", thorough, unwind = 8,
+      "one Raft::step(MsgRequestVote) on a PreCandidate (term 5) of a 3-voter group, message term 7, 3-entry log (terms [1,2,3], entry 3 a ConfChangeV2 for (pre)candidates; [1,2,5] for leaders), commit = 1, m.commit = 2 with m.commit_term = local term there (fast-forward); symbolic vote/leader/timers/flags/priority, m.index/log_term/context, sender a voter or unknown id",
+      |s| c03::vote_step_x(s, &F30C1.with_role(StateRole::PreCandidate).with_term(5), false, Some(2), Some(7), true) }
+    { vote_precandidate_real_lo_c3m, "C03", thorough, unwind = 8,
+      "one Raft::step(MsgRequestVote) on a PreCandidate (term 5) of a 3-voter group, message term 3, 3-entry log (terms [1,2,3], entry 3 a ConfChangeV2 for (pre)candidates; [1,2,5] for leaders), commit = 1, m.commit = 3 with m.commit_term = local term there (fast-forward); symbolic vote/leader/timers/flags/priority, m.index/log_term/context, sender a voter or unknown id",
+      |s| c03::vote_step_x(s, &F30C1.with_role(StateRole::PreCandidate).with_term(5), false, Some(3), Some(3), true) }
+    { vote_precandidate_pre_eq_c3m, "C03", quick, unwind = 8,
+      "one Raft::step(MsgRequestPreVote) on a PreCandidate (term 5) of a 3-voter group, message term 5, 3-entry log (terms [1,2,3], entry 3 a ConfChangeV2 for (pre)candidates; [1,2,5] for leaders), commit = 1, m.commit = 3 with m.commit_term = local term there (fast-forward); symbolic vote/leader/timers/flags/priority, m.index/log_term/context, sender a voter or unknown id",
+      |s| c03::vote_step_x(s, &F30C1.with_role(StateRole::PreCandidate).with_term(5), true, Some(3), Some(5), true) }
+    { vote_precandidate_pre_eq_c3z, "C03", thorough, unwind = 8,
+      "one Raft::step(MsgRequestPreVote) on a PreCandidate (term 5) of a 3-voter group, message term 5, 3-entry log (terms [1,2,3], entry 3 a ConfChangeV2 for (pre)candidates; [1,2,5] for leaders), commit = 1, m.commit = 3 with m.commit_term = 0; symbolic vote/leader/timers/flags/priority, m.index/log_term/context, sender a voter or unknown id",
+      |s| c03::vote_step_x(s, &F30C1.with_role(StateRole::PreCandidate).with_term(5), true, Some(3), Some(5), false) }
+    { vote_precandidate_pre_eq_c2m, "C03", thorough, unwind = 8,
+      "one Raft::step(MsgRequestPreVote) on a PreCandidate (term 5) of a 3-voter group, message term 5, 3-entry log (terms [1,2,3], entry 3 a ConfChangeV2 for (pre)candidates; [1,2,5] for leaders), commit = 1, m.commit = 2 with m.commit_term = local term there (fast-forward); symbolic vote/leader/timers/flags/priority, m.index/log_term/context, sender a voter or unknown id",
+      |s| c03::vote_step_x(s, &F30C1.with_role(StateRole::PreCandidate).with_term(5), true, Some(2), Some(5), true) }
+    { vote_precandidate_pre_hi_c3m, "C03", quick, unwind = 8,
+      "one Raft::step(MsgRequestPreVote) on a PreCandidate (term 5) of a 3-voter group, message term 7, 3-entry log (terms [1,2,3], entry 3 a ConfChangeV2 for (pre)candidates; [1,2,5] for leaders), commit = 1, m.commit = 3 with m.commit_term = local term there (fast-forward); symbolic vote/leader/timers/flags/priority, m.index/log_term/context, sender a voter or unknown id",
+      |s| c03::vote_step_x(s, &F30C1.with_role(StateRole::PreCandidate).with_term(5), true, Some(3), Some(7), true) }
+    { vote_precandidate_pre_hi_c3z, "C03", thorough, unwind = 8,
+      "one Raft::step(MsgRequestPreVote) on a PreCandidate (term 5) of a 3-voter group, message term 7, 3-entry log (terms [1,2,3], entry 3 a ConfChangeV2 for (pre)candidates; [1,2,5] for leaders), commit = 1, m.commit = 3 with m.commit_term = 0; symbolic vote/leader/timers/flags/priority, m.index/log_term/context, sender a voter or unknown id",
+      |s| c03::vote_step_x(s, &F30C1.with_role(StateRole::PreCandidate).with_term(5), true, Some(3), Some(7), false) }
+    { vote_precandidate_pre_hi_c2m, "C03", thorough, unwind = 8,
+      "one Raft::step(MsgRequestPreVote) on a PreCandidate (term 5) of a 3-voter group, message term 7, 3-entry log (terms [1,2,3], entry 3 a ConfChangeV2 for (pre)candidates; [1,2,5] for leaders), commit = 1, m.commit = 2 with m.commit_term = local term there (fast-forward); symbolic vote/leader/timers/flags/priority, m.index/log_term/context, sender a voter or unknown id",
+      |s| c03::vote_step_x(s, &F30C1.with_role(StateRole::PreCandidate).with_term(5), true, Some(2), Some(7), true) }
+    { vote_precandidate_pre_lo_c3m, "C03", quick, unwind = 8,
+      "one Raft::step(MsgRequestPreVote) on a PreCandidate (term 5) of a 3-voter group, message term 3, 3-entry log (terms [1,2,3], entry 3 a ConfChangeV2 for (pre)candidates; [1,2,5] for leaders), commit = 1, m.commit = 3 with m.commit_term = local term there (fast-forward); symbolic vote/leader/timers/flags/priority, m.index/log_term/context, sender a voter or unknown id",
+      |s| c03::vote_step_x(s, &F30C1.with_role(StateRole::PreCandidate).with_term(5), true, Some(3), Some(3), true) }
+    { vote_leader_real_eq_c3m, "C03", quick, unwind = 8,
+      "one Raft::step(MsgRequestVote) on a Leader (term 5) of a 3-voter group, message term 5, 3-entry log (terms [1,2,3], entry 3 a ConfChangeV2 for (pre)candidates; [1,2,5] for leaders), commit = 1, m.commit = 3 with m.commit_term = local term there (fast-forward); symbolic vote/leader/timers/flags/priority, m.index/log_term/context, sender a voter or unknown id",
+      |s| c03::vote_step_x(s, &F21C1.with_role(StateRole::Leader).with_term(5), false, Some(3), Some(5), true) }
+    { vote_leader_real_eq_c3z, "C03", thorough, unwind = 8,
+      "one Raft::step(MsgRequestVote) on a Leader (term 5) of a 3-voter group, message term 5, 3-entry log (terms [1,2,3], entry 3 a ConfChangeV2 for (pre)candidates; [1,2,5] for leaders), commit = 1, m.commit = 3 with m.commit_term = 0; symbolic vote/leader/timers/flags/priority, m.index/log_term/context, sender a voter or unknown id",
+      |s| c03::vote_step_x(s, &F21C1.with_role(StateRole::Leader).with_term(5), false, Some(3), Some(5), false) }
+    { vote_leader_real_eq_c2m, "C03", thorough, unwind = 8,
+      "one Raft::step(MsgRequestVote) on a Leader (term 5) of a 3-voter group, message term 5, 3-entry log (terms [1,2,3], entry 3 a ConfChangeV2 for (pre)candidates; [1,2,5] for leaders), commit = 1, m.commit = 2 with m.commit_term = local term there (fast-forward); symbolic vote/leader/timers/flags/priority, m.index/log_term/context, sender a voter or unknown id",
+      |s| c03::vote_step_x(s, &F21C1.with_role(StateRole::Leader).with_term(5), false, Some(2), Some(5), true) }
+    { vote_leader_real_hi_c3m, "C03", quick, unwind = 8,
+      "one Raft::step(MsgRequestVote) on a Leader (term 5) of a 3-voter group, message term 7, 3-entry log (terms [1,2,3], entry 3 a ConfChangeV2 for (pre)candidates; [1,2,5] for leaders), commit = 1, m.commit = 3 with m.commit_term = local term there (fast-forward); symbolic vote/leader/timers/flags/priority, m.index/log_term/context, sender a voter or unknown id",
+      |s| c03::vote_step_x(s, &F21C1.with_role(StateRole::Leader).with_term(5), false, Some(3), Some(7), true) }
+    { vote_leader_real_hi_c3z, "C03", thorough, unwind = 8,
+      "one Raft::step(MsgRequestVote) on a Leader (term 5) of a 3-voter group, message term 7, 3-entry log (terms [1,2,3], entry 3 a ConfChangeV2 for (pre)candidates; [1,2,5] for leaders), commit = 1, m.commit = 3 with m.commit_term = 0; symbolic vote/leader/timers/flags/priority, m.index/log_term/context, sender a voter or unknown id",
+      |s| c03::vote_step_x(s, &F21C1.with_role(StateRole::Leader).with_term(5), false, Some(3), Some(7), false) }
+    { vote_leader_real_hi_c2m, "C03", thorough, unwind = 8,
+      "one Raft::step(MsgRequestVote) on a Leader (term 5) of a 3-voter group, message term 7, 3-entry log (terms [1,2,3], entry 3 a ConfChangeV2 for (pre)candidates; [1,2,5] for leaders), commit = 1, m.commit = 2 with m.commit_term = local term there (fast-forward); symbolic vote/leader/timers/flags/priority, m.index/log_term/context, sender a voter or unknown id",
+      |s| c03::vote_step_x(s, &F21C1.with_role(StateRole::Leader).with_term(5), false, Some(2), Some(7), true) }
+    { vote_leader_real_lo_c3m, "C03", thorough, unwind = 8,
+      "one Raft::step(MsgRequestVote) on a Leader (term 5) of a 3-voter group, message term 3, 3-entry log (terms [1,2,3], entry 3 a ConfChangeV2 for (pre)candidates; [1,2,5] for leaders), commit = 1, m.commit = 3 with m.commit_term = local term there (fast-forward); symbolic vote/leader/timers/flags/priority, m.index/log_term/context, sender a voter or unknown id",
+      |s| c03::vote_step_x(s, &F21C1.with_role(StateRole::Leader).with_term(5), false, Some(3), Some(3), true) }
+    { vote_leader_pre_eq_c3m, "C03", quick, unwind = 8,
+      "one Raft::step(MsgRequestPreVote) on a Leader (term 5) of a 3-voter group, message term 5, 3-entry log (terms [1,2,3], entry 3 a ConfChangeV2 for (pre)candidates; [1,2,5] for leaders), commit = 1, m.commit = 3 with m.commit_term = local term there (fast-forward); symbolic vote/leader/timers/flags/priority, m.index/log_term/context, sender a voter or unknown id",
+      |s| c03::vote_step_x(s, &F21C1.with_role(StateRole::Leader).with_term(5), true, Some(3), Some(5), true) }
+    { vote_leader_pre_eq_c3z, "C03", thorough, unwind = 8,
+      "one Raft::step(MsgRequestPreVote) on a Leader (term 5) of a 3-voter group, message term 5, 3-entry log (terms [1,2,3], entry 3 a ConfChangeV2 for (pre)candidates; [1,2,5] for leaders), commit = 1, m.commit = 3 with m.commit_term = 0; symbolic vote/leader/timers/flags/priority, m.index/log_term/context, sender a voter or unknown id",
+      |s| c03::vote_step_x(s, &F21C1.with_role(StateRole::Leader).with_term(5), true, Some(3), Some(5), false) }
+    { vote_leader_pre_eq_c2m, "C03", thorough, unwind = 8,
+      "one Raft::step(MsgRequestPreVote) on a Leader (term 5) of a 3-voter group, message term 5, 3-entry log (terms [1,2,3], entry 3 a ConfChangeV2 for (pre)candidates; [1,2,5] for leaders), commit = 1, m.commit = 2 with m.commit_term = local term there (fast-forward); symbolic vote/leader/timers/flags/priority, m.index/log_term/context, sender a voter or unknown id",
+      |s| c03::vote_step_x(s, &F21C1.with_role(StateRole::Leader).with_term(5), true, Some(2), Some(5), true) }
+    { vote_leader_pre_hi_c3m, "C03", quick, unwind = 8,
+      "one Raft::step(MsgRequestPreVote) on a Leader (term 5) of a 3-voter group, message term 7, 3-entry log (terms [1,2,3], entry 3 a ConfChangeV2 for (pre)candidates; [1,2,5] for leaders), commit = 1, m.commit = 3 with m.commit_term = local term there (fast-forward); symbolic vote/leader/timers/flags/priority, m.index/log_term/context, sender a voter or unknown id",
+      |s| c03::vote_step_x(s, &F21C1.with_role(StateRole::Leader).with_term(5), true, Some(3), Some(7), true) }
+    { vote_leader_pre_hi_c3z, "C03", thorough, unwind = 8,
+      "one Raft::step(MsgRequestPreVote) on a Leader (term 5) of a 3-voter group, message term 7, 3-entry log (terms [1,2,3], entry 3 a ConfChangeV2 for (pre)candidates; [1,2,5] for leaders), commit = 1, m.commit = 3 with m.commit_term = 0; symbolic vote/leader/timers/flags/priority, m.index/log_term/context, sender a voter or unknown id",
+      |s| c03::vote_step_x(s, &F21C1.with_role(StateRole::Leader).with_term(5), true, Some(3), Some(7), false) }
+    { vote_leader_pre_hi_c2m, "C03", thorough, unwind = 8,
+      "one Raft::step(MsgRequestPreVote) on a Leader (term 5) of a 3-voter group, message term 7, 3-entry log (terms [1,2,3], entry 3 a ConfChangeV2 for (pre)candidates; [1,2,5] for leaders), commit = 1, m.commit = 2 with m.commit_term = local term there (fast-forward); symbolic vote/leader/timers/flags/priority, m.index/log_term/context, sender a voter or unknown id",
+      |s| c03::vote_step_x(s, &F21C1.with_role(StateRole::Leader).with_term(5), true, Some(2), Some(7), true) }
+    { vote_leader_pre_lo_c3m, "C03", quick, unwind = 8,
+      "one Raft::step(MsgRequestPreVote) on a Leader (term 5) of a 3-voter group, message term 3, 3-entry log (terms [1,2,3], entry 3 a ConfChangeV2 for (pre)candidates; [1,2,5] for leaders), commit = 1, m.commit = 3 with m.commit_term = local term there (fast-forward); symbolic vote/leader/timers/flags/priority, m.index/log_term/context, sender a voter or unknown id",
+      |s| c03::vote_step_x(s, &F21C1.with_role(StateRole::Leader).with_term(5), true, Some(3), Some(3), true) }
+    // ---------------- follower append / heartbeat: C05 / C04 / C01 ----------------
+    { append_dup, "C05", quick, unwind = 8,
+      "one Raft::step(MsgAppend) on a follower (3 voters; log terms [1,2,3] = 2 stable + 1 unstable; symbolic term/vote/leader/commit/applied/persisted/timers/flags; message term, commit, entry types symbolic): prev=(1,1), entry terms [2, 3] - duplicate of entries the log already holds (nothing may be truncated); post-state compared with a sequence model",
+      |s| c05::append_step(s, &F21T, 1, 1, &[2, 3], c05::O_DUP) }
+    { append_conf_unstable, "C05", quick, unwind = 8,
+      "one Raft::step(MsgAppend) on a follower (3 voters; log terms [1,2,3] = 2 stable + 1 unstable; symbolic term/vote/leader/commit/applied/persisted/timers/flags; message term, commit, entry types symbolic): prev=(1,1), entry terms [2, 4] - conflict at index 3, inside the unstable suffix; post-state compared with a sequence model",
+      |s| c05::append_step(s, &F21T, 1, 1, &[2, 4], c05::O_TRUNC) }
+    { append_conf_stable, "C05", quick, unwind = 8,
+      "one Raft::step(MsgAppend) on a follower (3 voters; log terms [1,2,3] = 2 stable + 1 unstable; symbolic term/vote/leader/commit/applied/persisted/timers/flags; message term, commit, entry types symbolic): prev=(1,1), entry terms [3, 3] - conflict at index 2, inside stable storage (offset moves back, persisted falls); post-state compared with a sequence model",
+      |s| c05::append_step(s, &F21T, 1, 1, &[3, 3], c05::O_TRUNC) }
+    { append_extend, "C05", quick, unwind = 8,
+      "one Raft::step(MsgAppend) on a follower (3 voters; log terms [1,2,3] = 2 stable + 1 unstable; symbolic term/vote/leader/commit/applied/persisted/timers/flags; message term, commit, entry types symbolic): prev=(3,3), entry terms [3, 4] - pure extension after the last entry; post-state compared with a sequence model",
+      |s| c05::append_step(s, &F21T, 3, 3, &[3, 4], c05::O_EXTEND) }
+    { append_rej_term, "C05", quick, unwind = 8,
+      "one Raft::step(MsgAppend) on a follower (3 voters; log terms [1,2,3] = 2 stable + 1 unstable; symbolic term/vote/leader/commit/applied/persisted/timers/flags; message term, commit, entry types symbolic): prev=(2,1), entry terms [2] - prev (index,term) mismatch -> reject with hint; post-state compared with a sequence model",
+      |s| c05::append_step(s, &F21T, 2, 1, &[2], c05::O_REJECT) }
+    { append_rej_beyond, "C05", quick, unwind = 8,
+      "one Raft::step(MsgAppend) on a follower (3 voters; log terms [1,2,3] = 2 stable + 1 unstable; symbolic term/vote/leader/commit/applied/persisted/timers/flags; message term, commit, entry types symbolic): prev=(4,3), entry terms [3] - prev index beyond the last index -> reject; post-state compared with a sequence model",
+      |s| c05::append_step(s, &F21T, 4, 3, &[3], c05::O_REJECT) }
+    { append_empty, "C05", quick, unwind = 8,
+      "one Raft::step(MsgAppend) on a follower (3 voters; log terms [1,2,3] = 2 stable + 1 unstable; symbolic term/vote/leader/commit/applied/persisted/timers/flags; message term, commit, entry types symbolic): prev=(2,2), entry terms [] - empty append (commit only); post-state compared with a sequence model",
+      |s| c05::append_step(s, &F21T, 2, 2, &[], c05::O_DUP) }
+    { append_prefix0, "C05", thorough, unwind = 8,
+      "one Raft::step(MsgAppend) on a follower (3 voters; log terms [1,2,3] = 2 stable + 1 unstable; symbolic term/vote/leader/commit/applied/persisted/timers/flags; message term, commit, entry types symbolic): prev=(0,0), entry terms [1, 2] - from index 0, duplicate prefix; post-state compared with a sequence model",
+      |s| c05::append_step(s, &F21T, 0, 0, &[1, 2], c05::O_DUP) }
+    { append_conf_first, "C05", thorough, unwind = 8,
+      "one Raft::step(MsgAppend) on a follower (3 voters; log terms [1,2,3] = 2 stable + 1 unstable; symbolic term/vote/leader/commit/applied/persisted/timers/flags; message term, commit, entry types symbolic): prev=(0,0), entry terms [2, 2] - conflict at index 1 (requires commit = 0); post-state compared with a sequence model",
+      |s| c05::append_step(s, &F21T, 0, 0, &[2, 2], c05::O_TRUNC) }
+    { append_extend_gap, "C05", thorough, unwind = 8,
+      "one Raft::step(MsgAppend) on a follower (3 voters; log terms [1,2,3] = 2 stable + 1 unstable; symbolic term/vote/leader/commit/applied/persisted/timers/flags; message term, commit, entry types symbolic): prev=(2,2), entry terms [3, 5] - matching entry then extension with a term jump; post-state compared with a sequence model",
+      |s| c05::append_step(s, &F21T, 2, 2, &[3, 5], c05::O_EXTEND) }
+    { append_shorter_dup, "C05", thorough, unwind = 8,
+      "one Raft::step(MsgAppend) on a follower (3 voters; log terms [1,2,3] = 2 stable + 1 unstable; symbolic term/vote/leader/commit/applied/persisted/timers/flags; message term, commit, entry types symbolic): prev=(0,0), entry terms [1] - single duplicate entry far below the tail; post-state compared with a sequence model",
+      |s| c05::append_step(s, &F21T, 0, 0, &[1], c05::O_DUP) }
+    { append_rej_hint_walk, "C05", thorough, unwind = 8,
+      "one Raft::step(MsgAppend) on a follower (3 voters; log terms [1,2,3] = 2 stable + 1 unstable; symbolic term/vote/leader/commit/applied/persisted/timers/flags; message term, commit, entry types symbolic): prev=(3,2), entry terms [] - reject whose hint walks back over larger terms; post-state compared with a sequence model",
+      |s| c05::append_step(s, &F21T, 3, 2, &[], c05::O_REJECT) }
+    { heartbeat_f21, "C05", quick, unwind = 10,
+      "one Raft::step(MsgHeartbeat) on a follower: commit rule, echo of context, log untouched, stale-term reply rule",
+      |s| c05::heartbeat_step(s, &F21) }
+    // ---------------- C09 campaign gating ----------------
+    { hup_f30_pending, "C09", quick, unwind = 8,
+      "Raft::step(MsgHup) on a follower (3 voters, log of 3, applied=1, commit=3, entry 3 is a ConfChangeV2): must not campaign; symbolic term/vote/leader/timers/flags",
+      |s| c09::hup_step(s, &F30.with_applied(1).with_commit(3).with_etypes(&[0, 0, 2]), 0) }
+    { hup_f30_clear, "C09", quick, unwind = 8,
+      "same with only normal entries in (applied, commit]: campaigns (pre-vote or vote per flag), requests carry true last index/term/commit",
+      |s| c09::hup_step(s, &F30.with_applied(1).with_commit(3).with_etypes(&[1, 0, 0]), 0) }
+    // ---------------- C14 RaftLog ----------------
+    { dbg1, "DBG", quick, unwind = 10, "dbg", |s| c14::dbg1(s, &L21T) }
+    { dbg2, "DBG", quick, unwind = 10, "dbg", |s| c14::dbg2(s, &L21T) }
+    { dbg_a, "DBG", quick, unwind = 5, "dbg", |s| c14::dbg_a(s) }
+    { dbg_b, "DBG", quick, unwind = 5, "dbg", |s| c14::dbg_b(s) }
+    { dbg_c, "DBG", quick, unwind = 5, "dbg", |s| c14::dbg_c(s) }
+    { dbg_d, "DBG", quick, unwind = 5, "dbg", |s| c14::dbg_d(s, &L21T) }
+    { dbg_e, "DBG", quick, unwind = 5, "dbg", |s| c14::dbg_e(s, &L21T) }
+    { dbg_f, "DBG", quick, unwind = 5, "dbg", |s| c14::dbg_f(s, &L21T) }
+    { dbg3, "DBG", quick, unwind = 5, "dbg", |s| c14::dbg3(s, &L21T) }
+    { dbg4, "DBG", quick, unwind = 5, "dbg", |s| c14::dbg4(s, &L21T) }
+    { log_append_dup, "C14", quick, unwind = 5,
+      "RaftLog::maybe_append on log terms [1,2,3] (2 stable + 1 unstable), prev=(1,1), entries [2,3] (duplicate); symbolic committed/applied/persisted/m.commit; compared with the sequence model",
+      |s| c14::maybe_append(s, &L21T, 1, 1, &[2, 3]) }
+    { log_append_conf_stable, "C14", quick, unwind = 5,
+      "same, entries [3,3]: conflict at index 2 inside stable storage",
+      |s| c14::maybe_append(s, &L21T, 1, 1, &[3, 3]) }
     // ---------------- C18 Inflights ----------------
     { c18_base, "C18", quick, unwind = 8,
       "induction base: Inflights::new(c), c in 0..=5, is an II-state denoting the empty FIFO",
